@@ -331,6 +331,10 @@ def cli_case(draw, tier):
     kind = draw(st.sampled_from(['prefix', 'prefix', 'corrupt', 'corrupt', 'random', 'intact', 'exotic', 'exotic']))
     c = {'kind': kind, 'runner': draw(st.sampled_from(['forked', 'forked', 'forked', 'real', 'real-O'])),
          'hex': draw(st.integers(0, 5)) == 0, 'by_id': draw(st.integers(0, 3)) == 0,
+         # the file name ends up in diagnostics: characters special to %-, {}- and shell-style formatting
+         'fname': draw(st.sampled_from([None, None, 'PEL%20copy_50000001.bin', '100%_50000001.pel',
+                                        'dump%d_50000001.pel', 'a{b}_50000001.pel', '{0}_50000001', 'sp ace_50000001.pel',
+                                        '%s%s%s_50000001', 'q\'uote"_50000001', '\u00fcn\u00ef_50000001.pel'])),
          'skip_plugins': draw(st.integers(0, 3)) == 0}
     if kind == 'random':
         c['data'] = draw(random_bytes)
@@ -388,7 +392,7 @@ def cli_check(case, note):
         must_reject = case['kind'] == 'prefix'
     d = tempfile.mkdtemp(prefix='c05')
     try:
-        path = os.path.join(d, 'x_50000001.pel')
+        path = os.path.join(d, case.get('fname') or 'x_50000001.pel')
         with open(path, 'wb') as f:
             f.write(data)
         # the same single-file barrier serves --file and --id
